@@ -270,7 +270,8 @@ func (t *rt) build(rp *reporter, n *node, path string) *rnode {
 	case kLazy:
 		r.core = zapcore.NewLazyWith(r.kids[0].core, []zapcore.Field{zap.Object("lz", countM{&t.lazyM})})
 	case kWith:
-		r.core = r.kids[0].core.With([]zapcore.Field{zap.Object("w", countM{&t.withM})})
+		// a With that adds nothing first: it must not change what the core is
+		r.core = r.kids[0].core.With(nil).With([]zapcore.Field{}).With([]zapcore.Field{zap.Object("w", countM{&t.withM})})
 	}
 	return r
 }
